@@ -21,7 +21,7 @@ package logging
 //@   ensures result != "" && trim_space(result) == result
 
 //@ func handleRequestID
-//@   props C16
+//@   props C16 C01
 //@   requires r != nil && r.Header != nil && w != nil && hdrmap(ptr(w)) != ptr(r.Header) && hdrmap(ptr(w)) != 0
 //@   ensures disabled_touches_nothing: !cfg.RequestID.Enabled ==> result == "" && reqH(r, header) == old(reqH(r, header)) && respH(w, header) == old(respH(w, header))
 //@   ensures response_carries_id: cfg.RequestID.Enabled ==> respH(w, header) != "" && respH(w, header) == result
@@ -33,7 +33,7 @@ package logging
 //@   modifies http.Header.vals
 
 //@ func handleTraceID
-//@   props C16
+//@   props C16 C01
 //@   requires r != nil && r.Header != nil && w != nil && hdrmap(ptr(w)) != ptr(r.Header) && hdrmap(ptr(w)) != 0
 //@   ensures disabled_touches_nothing: !cfg.Trace.Enabled ==> result == "" && reqH(r, header) == old(reqH(r, header)) && respH(w, header) == old(respH(w, header))
 //@   ensures response_carries_id: cfg.Trace.Enabled ==> respH(w, header) != "" && respH(w, header) == result
